@@ -58,8 +58,10 @@ import (
 	"sync/atomic"
 	"time"
 
+	"github.com/robinbraemer/event"
 	jconfig "go.minekube.com/gate/pkg/edition/java/config"
 	"go.minekube.com/gate/pkg/edition/java/proto/state/states"
+	"go.minekube.com/gate/pkg/edition/java/proxy"
 	"go.minekube.com/gate/pkg/edition/java/proxy/verifh/e2e"
 	"go.minekube.com/gate/pkg/edition/java/proxy/verifh/lib"
 	"go.minekube.com/gate/pkg/gate/proto"
@@ -110,6 +112,8 @@ type e2eSession struct {
 	A, B *e2e.ManualBackend
 	name string
 	c    *e2e.Client
+
+	postLogin *sync.Map // player name -> true, filled by the harness's PostLoginEvent subscriber
 
 	conns  map[string]*e2e.ManualConn
 	pings  []kaPing
@@ -393,6 +397,22 @@ func (s *e2eSession) run() {
 		st := "legacy:initial-connect:vanilla-client(replies-handled-after-join)"
 		if forge {
 			st = "legacy:initial-connect:forge-client(live)"
+			// The Forge relay writes the login success to the client BEFORE it switches the
+			// client connection to PLAY (on the backend's goroutine); a play packet sent in
+			// between is read as a login packet and the connection is closed ("unexpected packet
+			// during auth session"). Real clients send nothing before JoinGame; that window is
+			// not this property. PostLoginEvent fires after the switch: wait for it.
+			deadline := time.Now().Add(e2e.Watchdog)
+			for {
+				if _, ok := s.postLogin.Load(s.name); ok {
+					break
+				}
+				if s.c.EOF() || !time.Now().Before(deadline) {
+					s.fail("PostLoginEvent of the Forge login was not observed")
+					return
+				}
+				time.Sleep(50 * time.Microsecond)
+			}
 		}
 		if !s.round(st, []string{"a"}, false) {
 			return
@@ -609,6 +629,8 @@ func runE2E(r *lib.Run) {
 				r.Inconclusive("e2e harness: " + err.Error())
 				return
 			}
+			postLogin := &sync.Map{}
+			event.Subscribe(h.Ev, 0, func(e *proxy.PostLoginEvent) { postLogin.Store(e.Player().Username(), true) })
 			A, err1 := h.AddManualBackend("a")
 			B, err2 := h.AddManualBackend("b")
 			if err1 != nil || err2 != nil {
@@ -622,7 +644,7 @@ func runE2E(r *lib.Run) {
 				}
 				sp := specs[i]
 				r.LogCase(map[string]any{"layer": "e2e", "spec": sp})
-				s := &e2eSession{r: r, sp: sp, rng: rand.New(rand.NewSource(sp.Seed)), h: h, A: A, B: B,
+				s := &e2eSession{r: r, sp: sp, rng: rand.New(rand.NewSource(sp.Seed)), h: h, A: A, B: B, postLogin: postLogin,
 					name: fmt.Sprintf("k%d_%d", r.Seed%1000, i), conns: map[string]*e2e.ManualConn{}, seenN: map[int64]int{}, answ: map[int64]bool{}, pend: map[string]map[int64]bool{}}
 				ok, pv := lib.Returns(12*e2e.Watchdog, s.run)
 				if !ok {
